@@ -162,4 +162,153 @@ theorem utf8_roundtrip : ∀ (s : List Nat) (b : Bytes), utf8 s = .ok b →
       have := utf8_roundtrip cs b2 h2 f (by simp at hf; omega)
       simp [this]
 
+theorem ofNat_toNat_u8 (b : UInt8) : b.toNat.toUInt8 = b := by
+  simp [Nat.toUInt8]
+
+theorem cont_some {b : UInt8} {c : Nat} (h : Spec.cont b = some c) :
+    c < 64 ∧ b.toNat = 0x80 + c := by
+  unfold Spec.cont at h
+  split at h
+  · simp at h; omega
+  · simp at h
+
+theorem utf8_cons_of {c : Nat} {cs : List Nat} {b1 b2 : Bytes}
+    (h1 : utf8Char c = .ok b1) (h2 : utf8 cs = .ok b2) : utf8 (c :: cs) = .ok (b1 ++ b2) := by
+  simp [utf8, h1, h2]
+
+/-- **Converse of the round trip**: the strict decoder accepts only what `str.encode()` produces -
+    if bytes decode to a string, encoding that string gives back exactly those bytes (so the
+    encoding is the unique UTF-8 form: no second byte string stands for the same text). -/
+theorem utf8_of_decode : ∀ (f : Nat) (b : Bytes) (s : List Nat),
+    Spec.decodeUtf8 f b = some s → utf8 s = .ok b
+  | 0, _, _, h => by simp [Spec.decodeUtf8] at h
+  | f + 1, [], s, h => by
+    simp [Spec.decodeUtf8] at h; subst h; rfl
+  | f + 1, b0 :: rest, s, h => by
+    simp only [Spec.decodeUtf8] at h
+    split at h
+    · -- 1 byte
+      rename_i h0
+      cases hd : Spec.decodeUtf8 f rest with
+      | none => simp [hd] at h
+      | some t =>
+        simp [hd] at h; subst h
+        have ih := utf8_of_decode f rest t hd
+        have hc : utf8Char b0.toNat = .ok [b0] := by
+          simp [utf8Char, h0]
+        simpa using utf8_cons_of hc ih
+    · split at h
+      · simp at h
+      · split at h
+        · -- 2 bytes
+          rename_i h0 h1 h2
+          match rest, h with
+          | [], h => simp at h
+          | b1 :: r, h =>
+            simp only at h
+            cases hc1 : Spec.cont b1 with
+            | none => simp [hc1] at h
+            | some c1 =>
+              simp only [hc1] at h
+              cases hd : Spec.decodeUtf8 f r with
+              | none => simp [hd] at h
+              | some t =>
+                simp [hd] at h; subst h
+                have ih := utf8_of_decode f r t hd
+                obtain ⟨k1, e1⟩ := cont_some hc1
+                have hc : utf8Char ((b0.toNat - 0xC0) * 64 + c1) = .ok [b0, b1] := by
+                  have a0 : (0xC0 + ((b0.toNat - 0xC0) * 64 + c1) / 64) = b0.toNat := by omega
+                  have a1 : (0x80 + ((b0.toNat - 0xC0) * 64 + c1) % 64) = b1.toNat := by omega
+                  unfold utf8Char
+                  rw [if_neg (by omega), if_pos (by omega), a0, a1, ofNat_toNat_u8, ofNat_toNat_u8]
+                simpa using utf8_cons_of hc ih
+        · split at h
+          · -- 3 bytes
+            rename_i h0 h1 h2 h3
+            match rest, h with
+            | [], h => simp at h
+            | [_], h => simp at h
+            | b1 :: b2 :: r, h =>
+              simp only at h
+              cases hc1 : Spec.cont b1 with
+              | none => simp [hc1] at h
+              | some c1 =>
+                cases hc2 : Spec.cont b2 with
+                | none => simp [hc1, hc2] at h
+                | some c2 =>
+                  simp only [hc1, hc2] at h
+                  split at h
+                  · simp at h
+                  · rename_i hrange
+                    cases hd : Spec.decodeUtf8 f r with
+                    | none => simp [hd] at h
+                    | some t =>
+                      simp [hd] at h; subst h
+                      have ih := utf8_of_decode f r t hd
+                      obtain ⟨k1, e1⟩ := cont_some hc1
+                      obtain ⟨k2, e2⟩ := cont_some hc2
+                      have hc : utf8Char ((b0.toNat - 0xE0) * 4096 + c1 * 64 + c2) = .ok [b0, b1, b2] := by
+                        have a0 : (0xE0 + ((b0.toNat - 0xE0) * 4096 + c1 * 64 + c2) / 4096) = b0.toNat := by
+                          omega
+                        have a1 : (0x80 + ((b0.toNat - 0xE0) * 4096 + c1 * 64 + c2) / 64 % 64) = b1.toNat := by
+                          omega
+                        have a2 : (0x80 + ((b0.toNat - 0xE0) * 4096 + c1 * 64 + c2) % 64) = b2.toNat := by
+                          omega
+                        unfold utf8Char
+                        rw [if_neg (by omega), if_neg (by omega), if_neg (by omega), if_pos (by omega),
+                          a0, a1, a2, ofNat_toNat_u8, ofNat_toNat_u8, ofNat_toNat_u8]
+                      simpa using utf8_cons_of hc ih
+          · split at h
+            · -- 4 bytes
+              rename_i h0 h1 h2 h3 h4
+              match rest, h with
+              | [], h => simp at h
+              | [_], h => simp at h
+              | [_, _], h => simp at h
+              | b1 :: b2 :: b3 :: r, h =>
+                simp only at h
+                cases hc1 : Spec.cont b1 with
+                | none => simp [hc1] at h
+                | some c1 =>
+                  cases hc2 : Spec.cont b2 with
+                  | none => simp [hc1, hc2] at h
+                  | some c2 =>
+                    cases hc3 : Spec.cont b3 with
+                    | none => simp [hc1, hc2, hc3] at h
+                    | some c3 =>
+                      simp only [hc1, hc2, hc3] at h
+                      split at h
+                      · simp at h
+                      · rename_i hrange
+                        cases hd : Spec.decodeUtf8 f r with
+                        | none => simp [hd] at h
+                        | some t =>
+                          simp [hd] at h; subst h
+                          have ih := utf8_of_decode f r t hd
+                          obtain ⟨k1, e1⟩ := cont_some hc1
+                          obtain ⟨k2, e2⟩ := cont_some hc2
+                          obtain ⟨k3, e3⟩ := cont_some hc3
+                          have hc : utf8Char ((b0.toNat - 0xF0) * 262144 + c1 * 4096 + c2 * 64 + c3) =
+                              .ok [b0, b1, b2, b3] := by
+                            have a0 : (0xF0 + ((b0.toNat - 0xF0) * 262144 + c1 * 4096 + c2 * 64 + c3) / 262144)
+                                = b0.toNat := by omega
+                            have a1 : (0x80 + ((b0.toNat - 0xF0) * 262144 + c1 * 4096 + c2 * 64 + c3) / 4096 % 64)
+                                = b1.toNat := by omega
+                            have a2 : (0x80 + ((b0.toNat - 0xF0) * 262144 + c1 * 4096 + c2 * 64 + c3) / 64 % 64)
+                                = b2.toNat := by omega
+                            have a3 : (0x80 + ((b0.toNat - 0xF0) * 262144 + c1 * 4096 + c2 * 64 + c3) % 64)
+                                = b3.toNat := by omega
+                            unfold utf8Char
+                            rw [if_neg (by omega), if_neg (by omega), if_neg (by omega), if_neg (by omega),
+                              if_pos (by omega), a0, a1, a2, a3, ofNat_toNat_u8, ofNat_toNat_u8,
+                              ofNat_toNat_u8, ofNat_toNat_u8]
+                          simpa using utf8_cons_of hc ih
+            · simp at h
+
+
+/-- encoder and strict decoder are mutually inverse: `b` decodes to `s` iff `s` encodes to `b` -/
+theorem utf8_decode_iff (s : List Nat) (b : Bytes) :
+    Spec.decodeUtf8 (b.length + 1) b = some s ↔ utf8 s = .ok b :=
+  ⟨utf8_of_decode _ b s, fun h => utf8_roundtrip s b h _ (by omega)⟩
+
 end Aiorpcx.C16
